@@ -249,6 +249,17 @@ def inference_traces(ctx, r):
       def sample(self, logits, key):
         return self.postprocess(self.sample_no_postprocessing(logits, key))
 
+      def __getattr__(self, name):
+        # any other member of the real distribution is available too; using it is recorded (the flow has no place for it)
+        attr = getattr(real_dist, name)
+        if not callable(attr):
+          return attr
+
+        def call(*a, **kw):
+          evs.append({'ev': 'other', 'member': name})
+          return attr(*a, **kw)
+        return call
+
     rec_nets = ppo_networks.PPONetworks(
         policy_network=networks.FeedForwardNetwork(init=nets.policy_network.init, apply=rec_apply),
         value_network=nets.value_network, parametric_action_distribution=RecDist())
